@@ -9,6 +9,7 @@ import (
 	"fmt"
 	"math/big"
 	"os"
+	"sort"
 	"strconv"
 	"sync"
 )
@@ -20,13 +21,49 @@ type cexFile struct {
 }
 
 var (
-	once   sync.Once
-	cex    cexFile
-	mu     sync.Mutex
-	Failed []string // labels of assertions that failed natively
+	once    sync.Once
+	cex     cexFile
+	mu      sync.Mutex
+	Failed  []string // labels of assertions that failed natively
 	Reached = map[string]bool{}
 	Missing []string
+	Notes   []string
 )
+
+// Result is what one native replay observed.
+type Result struct {
+	Failed  []string `json:"failed"`
+	Reached []string `json:"reached"`
+	Missing []string `json:"missing,omitempty"`
+	Notes   []string `json:"notes,omitempty"`
+	Panic   string   `json:"panic,omitempty"`
+	Assume  bool     `json:"assume_failed,omitempty"`
+}
+
+// Begin installs a model for the next harness run and clears the observations.
+func Begin(model map[string]string) {
+	once.Do(func() {})
+	mu.Lock()
+	defer mu.Unlock()
+	cex = cexFile{Model: model}
+	if cex.Model == nil {
+		cex.Model = map[string]string{}
+	}
+	Failed, Missing, Notes = nil, nil, nil
+	Reached = map[string]bool{}
+}
+
+// End returns the observations since Begin.
+func End() Result {
+	mu.Lock()
+	defer mu.Unlock()
+	r := Result{Failed: append([]string{}, Failed...), Missing: Missing, Notes: Notes, Reached: []string{}}
+	for k := range Reached {
+		r.Reached = append(r.Reached, k)
+	}
+	sort.Strings(r.Reached)
+	return r
+}
 
 func load() {
 	once.Do(func() {
@@ -123,14 +160,25 @@ func Reach(label string) {
 	mu.Unlock()
 }
 
-func Canary()                        {}
+func Canary() {
+	load()
+	if cex.Model["canary"] == "1" {
+		mu.Lock()
+		Failed = append(Failed, "canary")
+		mu.Unlock()
+	}
+}
 func Yield(site string)              { yield(site) }
 func Go(name string, f func())       { spawn(name, f) }
 func Quiesce()                       { quiesce() }
 func Crashed() bool                  { return crashed() }
 func Symbolic() bool                 { return false }
 func ExpectPanic()                   {}
-func Note(v any)                     {}
+func Note(v any) {
+	mu.Lock()
+	Notes = append(Notes, fmt.Sprint(v))
+	mu.Unlock()
+}
 func Durable(v any)                  {}
 func And(a, b bool) bool             { return a && b }
 func Or(a, b bool) bool              { return a || b }
